@@ -53,6 +53,89 @@ def builder_slices(work):
     return [fc] + fl
 
 
+EXC = {"TypeException": 1, "XMLDocError": 2, "XMLReaderError": 3}
+RFUNCS = [("getNodeType", r"^int XMLReader::getNodeType\(\) const", "0"),
+          ("isEmpty", r"^bool XMLReader::isEmpty\(\) const", "false"),
+          ("getAttribute", r"^char\* XMLReader::getAttribute\(const char\* name\) const", "nullptr"),
+          ("getAttributeStr", r"^std::string XMLReader::getAttributeStr\(std::string_view name\) const", "std::string()"),
+          ("begin", r"^bool XMLReader::begin\(tag_t tag, bool skipEmpty\)", "false"),
+          ("end", r"^bool UTAP::XMLReader::end\(UTAP::tag_t tag\)", "false"),
+          ("read", r"^void XMLReader::read\(\)", ""),
+          ("get_name", r"^const std::string& XMLReader::get_name\(const char\* id\) const", "std::string()"),
+          ("parse", r"^int XMLReader::parse\(const xmlChar\* text, xta_part_t syntax\)", "-1"),
+          ("label", r"^bool XMLReader::label\(bool required, const std::string& s_kind\)", "false"),
+          ("invariant", r"^int XMLReader::invariant\(\)", "-1"),
+          ("reference", r"^std::string XMLReader::reference\(const std::string& attributeName\)", "std::string()"),
+          ("source", r"^std::string XMLReader::source\(\)", "std::string()"),
+          ("target", r"^std::string XMLReader::target\(\)", "std::string()"),
+          ("init", r"^bool XMLReader::init\(\)", "false"),
+          ("urgent", r"^bool XMLReader::urgent\(\)", "false"),
+          ("committed", r"^bool XMLReader::committed\(\)", "false"),
+          ("location", r"^bool XMLReader::location\(\)", "false"),
+          ("branchpoint", r"^bool XMLReader::branchpoint\(\)", "false"),
+          ("transition", r"^bool XMLReader::transition\(\)", "false")]
+
+
+def reader_slices(work):
+    src = X.Source("src/xmlreader.cpp")
+    te = X.braced(src, "enum class tag_t", r"^enum class tag_t \{")
+    write(work, "xr_tag_enum.inc", te.text + "\n")
+    ch_ = X.Source("include/utap/common.h")
+    xp = X.braced(ch_, "enum xta_part_t", r"^enum xta_part_t \{")
+    write(work, "xr_part_enum.inc", xp.text + "\n")
+    out = [te, xp]
+    def enumerators(sl):
+        body = re.sub(r"/\*.*?\*/|//[^\n]*", "", sl.text[sl.text.index("{") + 1:sl.text.rindex("}")], flags=re.S)
+        names = [n.strip() for n in body.split(",") if n.strip()]
+        if any(not re.match(r"^\w+$", n) for n in names):
+            raise X.ExtractionBroken(f"{sl.name}: enumerators with explicit values are not handled")
+        return names
+    ids = ["/* GENERATED from enum class tag_t (src/xmlreader.cpp) and enum xta_part_t (include/utap/common.h) */", '#include "xr_lits.h"']
+    ids += ["#define TAG_%s %d" % (n, i) for i, n in enumerate(enumerators(te))]
+    ids += ["#define %s %d" % (n, i) for i, n in enumerate(enumerators(xp))]
+    write(work, "xr_ids.h", "\n".join(ids) + "\n")
+    fl = []
+    for nm, rx, dflt in RFUNCS:
+        sl = X.function(src, "XMLReader::" + nm, rx)
+        sl.sub("glue:qualified names", r"\bUTAP::", "")
+        if nm == "get_name":
+            sl.sub("L8:const T& result->by value (CBMC mis-types const-reference results)", r"^const std::string& XMLReader::get_name", "std::string XMLReader::get_name", required=True)
+            X.lower_if_init(sl)
+            sl.sub("L15:auto->iterator type", r"auto l = names\.find\(id\)", "verif_names_it l = names.find(id)", required=True)
+            sl.sub("L8:it->second -> it.second (CBMC mis-types const-pointer results of operator->)", r"\bl->second\b", "l.second", required=True)
+        if nm == "getAttributeStr":
+            sl.sub("L4/L15:auto x = T{v}", r"auto res = std::string\{value\};", "std::string res(value);", required=True)
+        if nm == "label":
+            m = re.search(r"static const auto map = std::map<std::string_view, xta_part_t>\{(.*?)\};\s*if \(auto part = map\.find\(kind\); part != map\.end\(\)\)\s*parse\(text, part->second\);", sl.text, re.S)
+            if not m:
+                raise X.ExtractionBroken("XMLReader::label: the kind -> grammar entry table changed shape")
+            pairs = re.findall(r"\{\s*\"(\w+)\"\s*,\s*(S_\w+)\s*\}", m.group(1))
+            if len(pairs) < 5 or len(pairs) != m.group(1).count("{"):
+                raise X.ExtractionBroken("XMLReader::label: cannot read the kind table")
+            gen = ["/* GENERATED from the table in XMLReader::label (src/xmlreader.cpp): label kind -> grammar entry */",
+                   "static bool verif_label_part(const char* kind, xta_part_t& part)", "{", "    int k = verif_id(kind);"]
+            for kname, part in pairs:
+                gen.append("    if (k == LIT_%s) { part = %s; return true; }" % (kname.upper(), part))
+            gen += ["    return false;", "}"]
+            write(work, "xr_label_map.inc", "\n".join(gen) + "\n")
+            sl.text = sl.text[:m.start()] + "{ xta_part_t verif_part; if (verif_label_part(kind, verif_part)) parse(text, verif_part); }" + sl.text[m.end():]
+            sl.rules["L27:static std::map table + find -> generated lookup function"] = 1
+        if nm == "invariant":
+            sl.sub("L4/L15:auto x = T{v}", r"auto kind_sv = std::string_view\{kind\};", "std::string_view kind_sv(kind);", required=True)
+        if nm in ("location", "branchpoint"):
+            sl.sub("L15:auto->std::string", r"auto (l_id|b_id) = getAttributeStr", r"std::string \1 = getAttributeStr", required=True)
+            sl.sub("L2:if (auto [_, ins] = m.insert_or_assign(k, v); !ins)", r"if \(auto \[_, ins\] = names\.insert_or_assign\((\w+), (\w+)\); !ins\)", r"if (!names.verif_insert_or_assign(\1, \2))", required=True)
+        if nm == "transition":
+            sl.sub("L4/L15:auto x = T{v}", r"auto actname = std::string\{id \? id : \"SKIP\"\};", 'std::string actname(id ? id : "SKIP");', required=True)
+        sl.sub("L4:T{...}->T(...)", r"TypeException\{([^{}]*)\}", r"TypeException(\1)")
+        sl.sub("L9:constructor arguments of exceptions that only carry a message", r"XMLDocError\(\"[^\"]*\"\)", "XMLDocError()")
+        sl.sub("L9:constructor arguments of exceptions that only carry a message", r"XMLReaderError\([^;]*\)", "XMLReaderError()")
+        X.lower_exceptions(sl, dflt, EXC)
+        fl.append(sl)
+    write(work, "xr_funcs.inc", "\n".join(s.text for s in fl) + "\n")
+    return out + fl
+
+
 def build(tier, work, builder):
     w8 = os.path.join(work, "c08"); os.makedirs(w8, exist_ok=True)
     b8 = C08.build(tier, w8, builder)       # writes document_ctors.inc, expr_*.inc, kinds.h into w8
@@ -68,6 +151,38 @@ def build(tier, work, builder):
                     ("labels", ["DocumentBuilder::proc_guard", "DocumentBuilder::proc_sync", "DocumentBuilder::proc_update", "DocumentBuilder::proc_prob"])):
         jobs.append(F.Job("c04_builder_" + nm, "h_c04_builder_" + nm, [obj, hobj], unwind=14, functions=fns,
                           bound_note="templates of <= 2 locations, 1 branchpoint, <= 2 earlier edges; <= 4 fragments"))
+    # the system section: "every instantiation argument bound to the positionally corresponding parameter" is the contract of
+    # Document::add_instance - the C08 job, run here as a lemma of C04
+    inst = [j for j in b8["jobs"] if j.name == "c08_instance"]
+    if len(inst) != 1:
+        raise X.ExtractionBroken("C04: the add_instance job of C08 is missing")
+    inst[0].name = "c04_instance_mapping"
+    inst[0].note = "Document::add_instance (contracts/C08): new bindings keyed by the instantiated instance's own parameters, inherited ones kept, the instantiated instance itself unchanged"
+    jobs.append(inst[0])
+    # ---- K1: reader side
+    rs = reader_slices(work)
+    robj = builder.cc(os.path.join(CDIR, "xr04.cpp"), includes=[work, CDIR], cpp=True)
+    rh = builder.cc(os.path.join(CDIR, "h_xr04.c"), includes=[work, CDIR], defines=["EXCLUDE_KF"])
+    rh_kf = builder.cc(os.path.join(CDIR, "h_xr04.c"), includes=[work, CDIR])
+    FS = ["--max-field-sensitivity-array-size", "256"]  # constant propagation per cell for the script arrays (120 / 256 cells)
+    common = ["XMLReader::begin", "XMLReader::end", "XMLReader::read", "XMLReader::getAttribute"]
+    tf = ["XMLReader::transition", "XMLReader::source", "XMLReader::target", "XMLReader::reference", "XMLReader::get_name", "XMLReader::label (kind table generated from it)", "XMLReader::parse"]
+    lf = ["XMLReader::location", "XMLReader::invariant", "XMLReader::urgent", "XMLReader::committed", "XMLReader::getAttributeStr"]
+    shape_note = "one job per concrete shape of the element (number of labels / nails / flags, with or without white-space nodes); ids, names, texts, label kinds and attribute values are arbitrary"
+    for sh in ("0000", "0011", "0110", "1001", "1010", "1100", "2000", "2011", "2110"):
+        jobs.append(F.Job("c04_reader_transition_" + sh, "h_c04_reader_transition_" + sh, [robj, rh], unwind=30, functions=tf + common, bound_note=shape_note, cbmc_args=FS))
+    kf_shapes = []
+    for sh in ("00001", "01100", "02011", "10110", "11001", "12100", "12011", "02110", "11111"):
+        jobs.append(F.Job("c04_reader_location_" + sh, "h_c04_reader_location_" + sh, [robj, rh], unwind=30, functions=lf + common, bound_note=shape_note, cbmc_args=FS,
+                          note="known-finding class (rate label before invariant label) excluded: must pass" if sh[1] == "2" else ""))
+        if sh[1] == "2":
+            kf_shapes.append(sh)
+    jobs.append(F.Job("c04_reader_init", "h_c04_reader_init", [robj, rh], unwind=30, functions=["XMLReader::init", "XMLReader::get_name"] + common, cbmc_args=FS))
+    jobs.append(F.Job("c04_reader_branchpoint", "h_c04_reader_branchpoint", [robj, rh], unwind=30, functions=["XMLReader::branchpoint", "XMLReader::getAttributeStr"] + common, cbmc_args=FS))
+    for sh in kf_shapes:
+        jobs.append(F.Job("c04_kf1_reader_location_" + sh, "h_c04_reader_location_" + sh, [robj, rh_kf], unwind=30, functions=lf, cbmc_args=FS,
+                          known={r"invariant-and-rate-reach-the-builder-in-the-order-it-takes-them": "C04-KF1"}, note="unrestricted: fails exactly inside the known-finding class"))
+    slices = slices + rs
     return {
         "jobs": jobs, "slices": b8["slices"] + [s.info() for s in slices],
         "drops": ["the struct declarations of document.h are trusted stand-ins with the same member names (contracts/C08/doc08.cpp)", "names and strings are identities"],
@@ -80,4 +195,13 @@ def build(tier, work, builder):
 
 
 def replay(rec):
-    return {"confirmed": None, "detail": "no native probe for this obligation yet"}
+    import json
+    rc, out = native.run_replay("c04_probe", [])
+    try:
+        res = json.loads(out[out.index("{"):])
+    except Exception:
+        return {"confirmed": None, "detail": {"rc": rc, "raw": out[-1500:]}}
+    failed = [k for k, v in res.items() if v is not True and not k.startswith("kf.")]
+    if failed:
+        return {"confirmed": True, "detail": {"failed": failed, "report": res}, "real_code": "libUTAP built from /repo's working tree"}
+    return {"confirmed": None, "detail": {"report": res}}
